@@ -701,6 +701,11 @@ func sysQuery(f []string) vlib.Res {
 	tags := []string{"nt", "st:" + tr.Status, "k:" + tr.Kind}
 	if sys.tampered {
 		tags = append(tags, "tampered")
+		for srv, ts := range sys.tampers {
+			for _, t := range ts {
+				tags = append(tags, "tk:"+t.kind+"@"+srv)
+			}
+		}
 	}
 	if r == nil {
 		return vlib.Res{Impl: "noreply", Oracle: fail("l3/no-reply", "%s %s", name, f[3]), Tags: strings.Join(tags, ",")}
@@ -796,7 +801,9 @@ func sysQuery(f []string) vlib.Res {
 		}
 	}
 	// an untouched world must simply work (over-strictness is a different failure)
-	if !sys.tampered && !sys.noAnchor && tr.Kind != "lame" && tr.Kind != "loop" {
+	// (EDE 22 "no reachable authority" / 23 "network error": a loopback exchange timed out on a loaded machine — not judged)
+	environmental := servfail && (ede == "22" || ede == "23")
+	if !sys.tampered && !sys.noAnchor && tr.Kind != "lame" && tr.Kind != "loop" && !environmental {
 		switch {
 		case tr.Status == l3.Bogus && !fl.CD:
 		case !isTruth:
@@ -804,6 +811,11 @@ func sysQuery(f []string) vlib.Res {
 		case tr.Status == l3.Secure && !fl.CD && wantsAD && !r.AuthenticatedData:
 			add("l3/honest/ad-missing-on-validated-answer", "%s %s", name, f[3])
 		}
+	}
+	// an insecure zone is not DNSSEC's business: whatever unsigned reply its server gives must still be relayed
+	if tr.Status == l3.Insecure && sys.spec["zone"] == "i" && servfail && !sys.noAnchor && len(tr.AuthZone) == 1 && tr.AuthZone[0] == "zone.test." &&
+		(onlyTamper(sys, "nxdomain-forge") || onlyTamper(sys, "nodata-forge") || onlyTamper(sys, "forge-answer")) && len(sys.tampers["zone"]) > 0 && len(sys.tampers) == 1 {
+		add("l3/insecure/unsigned-reply-of-insecure-zone-refused", "%s %s", name, f[3])
 	}
 	or := "ok"
 	if len(v) > 0 {
